@@ -57,6 +57,15 @@ func (g *Gen) resolveType(s string) types.Type {
 			return types.NewSlice(t)
 		}
 		return nil
+	case strings.HasPrefix(s, "[") && !strings.HasPrefix(s, "[]"):
+		if k := strings.Index(s, "]"); k > 0 {
+			if n, err := strconv.Atoi(s[1:k]); err == nil {
+				if t := g.resolveType(s[k+1:]); t != nil {
+					return types.NewArray(t, int64(n))
+				}
+			}
+		}
+		return nil
 	case strings.HasPrefix(s, "map["):
 		depth := 0
 		for i := 3; i < len(s); i++ {
@@ -612,6 +621,26 @@ func (e *Env) call(n *ast.CallExpr) *Val {
 			}
 		}
 		return e.errf("typeid: unknown type")
+	case "ptrof": // ptrof(x, *T): reinterpret an int / interface payload as a pointer of type *T
+		v := e.tr(n.Args[0])
+		t := fv.g.resolveType(exprText(n.Args[1]))
+		if t == nil {
+			return e.errf("ptrof: unknown type %s", exprText(n.Args[1]))
+		}
+		term := v.T
+		if v.Typ != nil {
+			if _, ok := v.Typ.Underlying().(*types.Interface); ok {
+				term = "(i.val " + v.T + ")"
+			}
+		}
+		return &Val{T: term, Typ: t}
+	case "unboxed": // unboxed(x, T): payload of interface value x as a value of type T
+		v := e.tr(n.Args[0])
+		t := fv.g.resolveType(exprText(n.Args[1]))
+		if t == nil {
+			return e.errf("unboxed: unknown type %s", exprText(n.Args[1]))
+		}
+		return &Val{T: fv.unbox("(i.val "+v.T+")", t), Typ: t}
 	case "isnil":
 		v := e.tr(n.Args[0])
 		switch v.Typ.Underlying().(type) {
@@ -638,8 +667,9 @@ func (e *Env) call(n *ast.CallExpr) *Val {
 		}
 		return &Val{T: fmt.Sprintf("(ite (%s %s %s) %s %s)", op, a.T, b.T, a.T, b.T), Typ: mathType(a, b)}
 	case "held": // held(mu) lock token state: 0 none, n>0 read count, -1 write
-		v := e.tr(n.Args[0])
-		return intVal("(select " + fv.heapAt(e.st, "LOCK", "(Array Int Int)") + " " + e.lockID(v) + ")")
+		return intVal("(select " + fv.heapAt(e.st, "LOCK", "(Array Int Int)") + " " + e.addrOf(n.Args[0]) + ")")
+	case "addr": // addr(x.f): opaque address of a field (identity only)
+		return intVal(e.addrOf(n.Args[0]))
 	}
 	// conversions to Go types: uint32(x), int(x), int64(x), string(x) ...
 	if t := fv.g.resolveType(fname); t != nil && len(n.Args) == 1 {
@@ -673,6 +703,39 @@ func (e *Env) call(n *ast.CallExpr) *Val {
 		return e.specCall(sf, n.Args)
 	}
 	return e.errf("unknown spec function %s", fname)
+}
+
+// addrOf returns the address (opaque identity) of an l-value expression such as x.mu or &x.mu.
+func (e *Env) addrOf(x ast.Expr) string {
+	switch n := x.(type) {
+	case *ast.ParenExpr:
+		return e.addrOf(n.X)
+	case *ast.UnaryExpr:
+		if n.Op == token.AND {
+			return e.addrOf(n.X)
+		}
+	case *ast.SelectorExpr:
+		base := e.tr(n.X)
+		if base.Typ != nil {
+			if p, ok := base.Typ.Underlying().(*types.Pointer); ok {
+				if st, ok := p.Elem().Underlying().(*types.Struct); ok {
+					if idx, path := findField(st, n.Sel.Name); idx >= 0 {
+						pl := e.fv.placeFromPointer(base)
+						for _, i := range path {
+							pl = e.fv.fieldPlace(pl, i)
+						}
+						if _, isPtr := pl.Typ.Underlying().(*types.Pointer); isPtr {
+							// field holds a pointer to the mutex: the lock identity is the pointer value
+							return e.fv.loadPlace(e.st, pl).T
+						}
+						return e.fv.placeToValue(pl, pl.Typ)
+					}
+				}
+			}
+		}
+	}
+	v := e.tr(x)
+	return e.lockID(v)
 }
 
 func (e *Env) lockID(v *Val) string {
